@@ -162,6 +162,10 @@ def run_job(job):
     nconv = 0
     for pi_, o in enumerate(outs):
         if o.exc is not None:
+            from ..harness import exc_origin
+            if exc_origin(o.exc) == "harness":
+                ob.fail_harness(f"harness raised: {o.exc!r}")
+                continue
             ob.fail_harness(f"raised: {o.exc!r}")
             continue
         r = o.value
